@@ -4,9 +4,12 @@ import (
 	"crypto/sha512"
 	"encoding/base64"
 	"fmt"
+	"io"
+	"net/http"
 	"net/url"
 	"regexp"
 	"strings"
+	"time"
 
 	"verif/sim"
 	"verif/world"
@@ -396,6 +399,89 @@ var c17Templates = []sim.Template{
 	}},
 }
 
+// smtpLeakProbe: "mailed tokens leave the system only in the e-mail addressed to the account", through the
+// shipped SMTPMailer against a relay that refuses one recipient: the victim's recovery mail fails at RCPT, the
+// next account's recovery mail goes through — every token in a delivered message belongs (by the selector
+// hash storage holds) to an account that message is addressed to.
+func smtpLeakProbe(seed int64, rounds int) (verdict, detail string, mails int) {
+	srv, err := newC20Server(seed, true, false, false)
+	if err != nil {
+		return "inconclusive", err.Error(), 0
+	}
+	defer srv.close()
+	post := func(pid string) {
+		hc := &http.Client{CheckRedirect: func(*http.Request, []*http.Request) error { return http.ErrUseLastResponse }, Timeout: 30 * time.Second}
+		req, _ := http.NewRequest("POST", srv.srv.URL+"/auth/recover", strings.NewReader(url.Values{"email": {pid}}.Encode()))
+		req.Header.Set("Content-Type", "application/x-www-form-urlencoded")
+		if resp, err := hc.Do(req); err == nil {
+			io.Copy(io.Discard, resp.Body)
+			resp.Body.Close()
+		}
+	}
+	for n := 0; n < rounds; n++ {
+		victim, other := fmt.Sprintf("victim%d@site.test", n), fmt.Sprintf("other%d@site.test", n)
+		for _, p := range []string{victim, other} {
+			srv.store.Put(&world.User{PID: p, Email: p, Password: sim.Hash4("Sm7p!passw"), Confirmed: true})
+		}
+		srv.smtp.mu.Lock()
+		srv.smtp.failRcpt = victim
+		before := srv.smtp.failed
+		srv.smtp.mu.Unlock()
+		post(victim)
+		ok := false
+		for i := 0; i < 2000 && !ok; i++ { // the mail goroutine reaches the relay and is refused
+			srv.smtp.mu.Lock()
+			ok = srv.smtp.failed > before
+			srv.smtp.mu.Unlock()
+			if !ok {
+				time.Sleep(5 * time.Millisecond)
+			}
+		}
+		if !ok {
+			return "inconclusive", "the relay never saw the mail it was to refuse", mails
+		}
+		post(other)
+		ok = false
+		for i := 0; i < 2000 && !ok; i++ {
+			ok = strings.Contains(srv.smtp.all(), "To: "+other)
+			if !ok {
+				time.Sleep(5 * time.Millisecond)
+			}
+		}
+		if !ok {
+			return "inconclusive", "the second mail never reached the relay", mails
+		}
+	}
+	srv.smtp.mu.Lock()
+	msgs, envs := append([]string(nil), srv.smtp.msgs...), append([]string(nil), srv.smtp.envs...)
+	srv.smtp.mu.Unlock()
+	for mi, msg := range msgs {
+		mails++
+		env := envs[mi]
+		body := strings.ReplaceAll(strings.ReplaceAll(msg, "=\r\n", ""), "=3D", "=")
+		for _, m := range reMailURL.FindAllStringSubmatch(body, -1) {
+			tok, _ := url.QueryUnescape(m[2])
+			raw, err := base64.URLEncoding.DecodeString(tok)
+			if err != nil || len(raw) != 64 {
+				continue
+			}
+			sel := sha512.Sum512(raw[:32])
+			selector := base64.StdEncoding.EncodeToString(sel[:])
+			owner := ""
+			for _, u := range srv.store.Snapshot().Users {
+				if u.RecoverSelector == selector {
+					owner = u.PID
+				}
+			}
+			if owner != "" && !strings.Contains(","+env+",", ","+strings.ToLower(owner)+",") {
+				to := env
+				return "violated", fmt.Sprintf("a message the relay accepted for %q carries the live recovery token of %q (whose own mail the relay had refused)", to, owner), mails
+			}
+		}
+	}
+	return "held", "", mails
+}
+
 func init() {
 	prof := &sim.Profile{W: map[string]int{}, MinLen: 25, MaxLen: 55, Templates: c17Templates, TplProb: 0.5, NoiseProb: 0.1}
 	for k, v := range c01Profile.W {
@@ -404,7 +490,7 @@ func init() {
 	prof.W["confirm"], prof.W["recover_end"], prof.W["recover_start"], prof.W["admin_startconfirm"], prof.W["otp_add"], prof.W["regen"] = 8, 9, 6, 4, 8, 2
 	register(&Check{
 		ID: "C17", Level: "exploration",
-		Rule:  "mixed histories over all flows and module subsets (the C01 generator) with extra weight on near-valid submissions — a valid token followed by one stray character, a valid token in a URL with a broken percent-escape elsewhere — because those make a library log what it received; a live recovery code or the password typed into the CODE field of the 2FA validate/remove pages. Secret ledger: every password the harness seeded or typed (incl. wrong ones), every OTP and recovery code shown or seeded, every remember cookie value plus its decoded token, nonce and std-base64 form, every mailed token in URL form, std-base64 form and decoded bytes (all >= 8 bytes). After every request: substring search of every changed/created stored field and new token row, and of every log line the request produced (shipped defaults.Logger); every stored password must be bcrypt-shaped; every mail carrying a token — including a string that was mailed before — must be addressed only to the addresses of every account that string was ever mailed for. After every request every value of every server-side session is searched for the ledger's passwords, one-time / recovery codes and confirm / recover tokens too (the 2FA e-mail-verification token is kept there by design and excluded). distinct_nontrivial = distinct (action, class, log line shapes, fields changed) signatures.",
+		Rule:  "mixed histories over all flows and module subsets (the C01 generator) with extra weight on near-valid submissions — a valid token followed by one stray character, a valid token in a URL with a broken percent-escape elsewhere — because those make a library log what it received; a live recovery code or the password typed into the CODE field of the 2FA validate/remove pages. Secret ledger: every password the harness seeded or typed (incl. wrong ones), every OTP and recovery code shown or seeded, every remember cookie value plus its decoded token, nonce and std-base64 form, every mailed token in URL form, std-base64 form and decoded bytes (all >= 8 bytes). After every request: substring search of every changed/created stored field and new token row, and of every log line the request produced (shipped defaults.Logger); every stored password must be bcrypt-shaped; every mail carrying a token — including a string that was mailed before — must be addressed only to the addresses of every account that string was ever mailed for. After every request every value of every server-side session is searched for the ledger's passwords, one-time / recovery codes and confirm / recover tokens too (the 2FA e-mail-verification token is kept there by design and excluded). Every 100th unit runs the shipped SMTPMailer against a relay that refuses one recipient: every token in a message the relay accepted belongs (selector hash in storage) to an envelope recipient of that message. distinct_nontrivial = distinct (action, class, log line shapes, fields changed) signatures.",
 		Units: func(t string) int { return tierN(t, 600, 25000) },
 		Run: func(c *RunCtx, unit int) {
 			if unit%100 == 0 {
@@ -414,6 +500,18 @@ func init() {
 					c.Stats.Violations = append(c.Stats.Violations, sim.VioRec{Violation: *vio("C17", "one-time-token-generator-under-concurrency", "%s", msg), Index: unit})
 				} else {
 					c.Stats.Add("tokens-generated-in-parallel", n)
+				}
+			}
+			if unit%100 == 50 {
+				switch v, d, n := smtpLeakProbe(c.Seed*1000+int64(unit), 6); v {
+				case "violated":
+					c.Stats.Violations = append(c.Stats.Violations, sim.VioRec{Violation: *vio("C17", "token-mailed-to-foreign-address|recover|smtp-mailer-after-a-refused-delivery", "%s", d), Index: unit})
+					return
+				case "held":
+					c.Stats.Add("smtp-messages-checked-after-refused-deliveries", n)
+				default:
+					c.Stats.Inconclusive = append(c.Stats.Inconclusive, "smtp leak probe: "+d)
+					return
 				}
 			}
 			r := Rng(c.Seed, "C17", unit)
